@@ -137,7 +137,7 @@ def plan(ctx, cat):
         nrand = len(vs)
         # the smallest window lengths (1, 2, 3) for every period-like parameter; values an indicator rejects raise -> skipped
         seen = {tuple(sorted(v.items())) for v in vs}
-        for b in D.boundary_variants(e):
+        for b in D.boundary_variants(e) + D.matype_variants(e):
             if tuple(sorted(b.items())) not in seen:
                 seen.add(tuple(sorted(b.items())))
                 vs.append(b)
